@@ -29,10 +29,14 @@ package bcl
 //@ func (*vm).warning
 //@   requires position_known: vm.prog != nil && vm.prog.linePos != nil && 1 <= vm.pc && vm.pc <= len(vm.prog.positions)
 //@   assert [C08] position_of_the_warned_instruction: at format#1: $pos == vm.prog.positions[vm.pc-1]
+//@   assert [C04,C19,C08] warnings_go_straight_to_the_log_writer: at Fprintf#1: $w == vm.prog.log
+//@   assert [C04,C19,C08] warning_text_goes_to_the_log_writer: at Fprintf#2: $w == vm.prog.log
 //@   modifies nothing
 //
 //@ group C01,C02,C03,C04,C10,C06
 //@ func (*vm).run
+//@   assert [C19] trace_goes_to_the_output_writer: at printStack#1: $w == vm.output
+//@   assert [C01,C19] print_goes_to_the_output_writer: at Fprintln#1: $w == vm.output
 //@   requires prog_set: vm.prog != nil && vm.prog.linePos != nil
 //@   requires initial: vm.tos == 0 && vm.blockTos == 0 && vm.pc == 0
 //
@@ -122,4 +126,5 @@ package bcl
 //@   requires line_table: p.linePos != nil
 //@   requires instruction_well_formed: wfInstr(p, offset)
 //@   ensures [C10,C19] next_instruction: result == offset + instrLen(p, offset)
+//@   assert [C19] listing_goes_to_the_output_writer: at Fprintf#1: $w == p.output
 //@   modifies nothing
